@@ -195,6 +195,8 @@ def _structured(stmts, mk_result):
             out.append(new)
             return out
         out.append(s)
+        if isinstance(s, ast.Raise):
+            return out   # nothing is returned on a path that ends in raise
     # fell off the end: implicit None
     out.extend(mk_result(ast.Constant(value=None), stmts[-1] if stmts else None))
     return out
@@ -213,6 +215,7 @@ class Inliner:
     # ---- helper lookup ------------------------------------------------------------------
     def _helper_for(self, caller, call):
         """FunctionInfo of the new helper called by `call` inside `caller`, plus the expression bound to self (or None)"""
+        self._cls_call_ok = False
         f = call.func
         prog = self.prog
         if isinstance(f, ast.Name):
@@ -234,6 +237,7 @@ class Inliner:
                 if kind == "class" and q in prog.classes:
                     h = prog.classes[q].methods.get(f.attr)
                     if h is not None and h.qual not in self.inv_funcs and (h.is_staticmethod or h.is_classmethod):
+                        self._cls_call_ok = bool(h.is_classmethod)
                         return h, ast.Name(id=base.id, ctx=ast.Load())
                 if kind == "module" and q in prog.modules:
                     h = prog.modules[q].functions.get(f.attr)
@@ -346,7 +350,11 @@ class Inliner:
         body = self._body(helper)
         if not body or len(body) > MAX_HELPER_STMTS or helper.qual == caller.qual:
             return False
-        if helper.is_property or helper.is_classmethod:
+        if helper.is_property:
+            return False
+        # a classmethod called through the class name (`Cls._m(...)`) is a function of the class: `cls` is that name; called
+        # through an instance it may see a subclass, so it is left alone
+        if helper.is_classmethod and not getattr(self, "_cls_call_ok", False):
             return False
         if any(isinstance(n, (ast.Yield, ast.YieldFrom, ast.Global, ast.Nonlocal, ast.Lambda)) for n in ast.walk(helper.node)):
             return False
